@@ -7,6 +7,7 @@ import (
 	"strconv"
 	"strings"
 	"sync"
+	"time"
 
 	"verif/harness/internal/histfs"
 	"verif/harness/internal/report"
@@ -27,6 +28,7 @@ var c13Inputs = []struct{ id, src string }{
 	{"blank-shadowing-named", "//go:build convergen\n\npackage p\n\nimport (\n\t\"example.com/m/ext\"\n\t_ \"example.com/m/ext/v2\"\n)\n\nvar _ ext.EInt\n\ntype S struct{ A int }\n\ntype D struct{ A string }\n\ntype Convergen interface {\n\t// :conv ext.Itoa A\n\tConv(*S) *D\n}\n"},
 	{"alias-equals-other-base-name", "//go:build convergen\n\npackage p\n\nimport (\n\te \"example.com/m/ext\"\n\text \"example.com/m/ext/v2\"\n)\n\nvar _ e.EInt\n\ntype S struct{ A int }\n\ntype D struct{ A int }\n\ntype Convergen interface {\n\t// :conv ext.Conv A\n\tConv(*S) *D\n}\n"},
 	{"four-generated-converters", "//go:build convergen\n\npackage p\n\ntype A1 struct{ V int }\ntype A2 struct{ V int }\ntype B1 struct{ V int }\ntype B2 struct{ V int }\ntype C1 struct{ V int }\ntype C2 struct{ V int }\ntype E1 struct{ V int }\ntype E2 struct{ V int }\n\ntype S struct {\n\tA *A1\n\tB *B1\n\tC *C1\n\tE *E1\n}\n\ntype D struct {\n\tA *A2\n\tB *B2\n\tC *C2\n\tE *E2\n}\n\ntype Convergen interface {\n\t// :conv ConvA A\n\t// :conv ConvB B\n\t// :conv ConvC C\n\t// :conv ConvE E\n\tTop(*S) *D\n\tConvA(*A1) *A2\n\tConvB(*B1) *B2\n\tConvC(*C1) *C2\n\tConvE(*E1) *E2\n}\n"},
+	{"two-blank-same-base-name", "//go:build convergen\n\npackage p\n\nimport (\n\t_ \"example.com/m/ext/a/conv\"\n\t_ \"example.com/m/ext/b/conv\"\n)\n\ntype S struct{ A int }\n\ntype D struct{ A string }\n\ntype Convergen interface {\n\t// :conv conv.Itoa A\n\tConv(*S) *D\n}\n"},
 	{"imported-hook", "//go:build convergen\n\npackage p\n\nimport (\n\te \"example.com/m/ext\"\n\t_ \"example.com/m/ext/other\"\n)\n\ntype Convergen interface {\n\t// :postprocess e.HookSDErr\n\tConv(*e.S) (*e.D, error)\n}\n"},
 	{"two-interfaces", cliInputs[2].src},
 	{"three-interfaces", "//go:build convergen\n\npackage p\n\nimport \"example.com/m/ext\"\n\ntype S struct {\n\tA int\n\tL []int\n}\n\ntype D struct {\n\tA ext.EInt\n\tL []ext.EInt\n}\n\n// :typecast\ntype Convergen interface {\n\tZeta(*S) *D\n\tAlpha(*S) *D\n}\n\n// :convergen\ntype B interface {\n\tMid(*S) *D\n}\n\nvar Between = 1\n\n// :convergen\n// :typecast\ntype A interface {\n\t// :recv s\n\tLast(*S) *D\n}\n"},
@@ -48,6 +50,7 @@ var c13Markers = []string{
 
 // c13Env is one point of the environment product.
 type c13Env struct {
+	Log      int // 1: run with -log
 	Prior    int // what the output path holds before the run: 0 nothing, 1 a longer stale file
 	Marker   int
 	MapOrder string
@@ -94,6 +97,9 @@ func (e *Env) c13Run(base, tag string, in int, env c13Env, countFile string) c13
 		spelled = abs
 	}
 	var args, extra []string
+	if env.Log == 1 {
+		args = append(args, "-log")
+	}
 	if env.GoFile == 1 {
 		extra = append(extra, "GOFILE="+spelled)
 	} else {
@@ -336,6 +342,26 @@ func init() {
 			}
 			mu.Unlock()
 		})
+		// -log must not make the diagnostics time-dependent: the same run repeated more than a second later
+		// (the clock is not intercepted, so the two executions are simply spaced apart)
+		for in := range c13Inputs {
+			if c13Inputs[in].id != "no-match-warnings" && c13Inputs[in].id != "rejected" {
+				continue
+			}
+			first := e.c13Run(base, fmt.Sprintf("log_%d_a", in), in, c13Env{Marker: 1, MapOrder: "asc", Log: 1}, "")
+			time.Sleep(1100 * time.Millisecond)
+			second := e.c13Run(base, fmt.Sprintf("log_%d_b", in), in, c13Env{Marker: 1, MapOrder: "asc", Log: 1}, "")
+			e.Rep.AddTransitions(2)
+			e.Rep.AddEvaluations(1)
+			if first != second {
+				e.Rep.Report(report.Finding{Key: "C13|log-run-time-dependent|input=" + c13Inputs[in].id, CellID: c13Inputs[in].id + "_log_twice",
+					What: fmt.Sprintf("two -log runs 1.1 s apart differ: stderr %q vs %q", clip(first.Stderr, 200), clip(second.Stderr, 200))})
+			}
+			if first.Stderr != refs[in].Stderr {
+				e.Rep.Report(report.Finding{Key: "C13|log-changes-diagnostics|input=" + c13Inputs[in].id, CellID: c13Inputs[in].id + "_log",
+					What: fmt.Sprintf("diagnostics with -log differ from those without: %q vs %q", clip(first.Stderr, 200), clip(refs[in].Stderr, 200))})
+			}
+		}
 		// cross-check (not deciding): free-running repetitions with no seam set
 		reps := 5
 		if th {
